@@ -899,47 +899,38 @@ _FP_SRC = {'cvtss2sd': (4, 1), 'cvtsd2ss': (8, 1), 'cvtps2pd': (4, 2), 'cvtpd2ps
 
 
 def fp_class(info, st):
-    """class of the floating-point inputs actually read by the instruction:
-    fp:ordinary or fp:<kinds> with kinds among nan, inf, denormal,
-    zeros-of-opposite-sign (two-operand instructions), out-of-int-range (conversions to integer)"""
+    """class of the floating-point inputs, only where it names a mechanism:
+    MIN*/MAX* (the processor returns the second operand for two zeros and for a NaN)
+    and CMPPS/PD/SS/SD with reserved immediate bits.  Other floating-point
+    departures are keyed by (mode, back end, mnemonic, what differs) only."""
     mn = info['mn']
     ops = info['ops']
-    if not is_fp(mn) or not any(o['kind'] == 'xmm' for o in ops):
+    if re.match(r'^cmp(ps|pd|ss|sd)$', mn) and ops and ops[-1]['kind'] == 'imm' and \
+            any(o['kind'] == 'xmm' for o in ops):
+        return "imm8>7" if ops[-1]['val'] > 7 else None
+    if not re.match(r'^(min|max)(ps|pd|ss|sd)$', mn) or len(ops) != 2:
         return None
-    if mn.startswith(('cvtsi2', 'cvtdq2')):
-        return None
-    if mn in _FP_SRC:
-        w, n = _FP_SRC[mn]
-    else:
-        sfx = mn[-2:]
-        w = 4 if sfx in ('ps', 'ss') else 8
-        n = 1 if sfx in ('ss', 'sd') else 16 // w
-    srcs = ops[1:] if mn.startswith(('cvt', 'sqrt')) else ops
-    vals = [vec_value(o, st) for o in srcs if o['kind'] in ('xmm', 'mem')]
-    if any(v is None for v in vals) or not vals:
-        return "fp:?"
-    kinds = set()
+    sfx = mn[-2:]
+    w = 4 if sfx in ('ps', 'ss') else 8
+    n = 1 if sfx in ('ss', 'sd') else 16 // w
+    vals = [vec_value(o, st) for o in ops]
+    if any(v is None for v in vals):
+        return "lanes:?"
     sign = 1 << (8 * w - 1)
     mant = (1 << (23 if w == 4 else 52)) - 1
     expm = (sign - 1) ^ mant
-    bias = 127 if w == 4 else 1023
-    to_int = mn.endswith(('2si', '2dq'))
-    ibits = 32
-    if mn.endswith('2si') and ops[0]['kind'] == 'reg' and ops[0]['size'] == 64:
-        ibits = 64
+    kinds = set()
     for i in range(n):
         lane = [int.from_bytes(v[i * w:(i + 1) * w], "little") for v in vals]
-        for x in lane:
-            e = (x & expm) >> (23 if w == 4 else 52)
-            if (x & expm) == expm:
-                kinds.add("nan" if x & mant else "inf")
-            elif e == 0 and x & mant:
-                kinds.add("denormal")
-            if to_int and (x & expm) != expm and e - bias >= ibits - 1:
-                kinds.add("out-of-int-range")
-        if len(lane) == 2 and all((x & ~sign) == 0 for x in lane) and lane[0] != lane[1]:
+        if any((x & expm) == expm and (x & mant) for x in lane):
+            kinds.add("nan")
+        elif all((x & ~sign) == 0 for x in lane) and lane[0] != lane[1]:
             kinds.add("zeros-of-opposite-sign")
-    return "fp:" + ("+".join(sorted(kinds)) if kinds else "ordinary")
+    if "nan" in kinds:
+        return "lanes:nan"
+    if kinds:
+        return "lanes:zeros-of-opposite-sign"
+    return "lanes:ordinary"
 
 
 def key_name(name, cmn):
@@ -950,6 +941,9 @@ def key_name(name, cmn):
         return 'SETcc'
     if cmn == 'jcc':
         return 'Jcc'
+    m = re.match(r'^CMP(EQ|LT|LE|UNORD|NEQ|NLT|NLE|ORD)(PS|PD|SS|SD)$', name)
+    if m:
+        return 'CMPcc' + m.group(2)
     return name
 
 
